@@ -44,10 +44,19 @@ def predict(cfg, rng, q=None):
     n += 1
     if np.max(np.abs(q.sG * Bt - q.B0 * q.etabar * np.cos(th))) > 1e-7 * abs(q.B0 * q.etabar):
         bad('magnitude', 'd|B|/dr from the field vector differs from B0*etabar*cos(theta)')
-    Bm = q.B_mag(r, th, q.phi); Bv = np.sqrt(np.sum(q.Bfield_cylindrical(r, th) ** 2, axis=0))
+    # |B| from the field vector vs the field-strength evaluator, to first order in r (B_mag takes the Boozer poloidal angle, Bfield_cylindrical
+    # the helical one: theta_Boozer = theta_helical + (iota - iotaN) * varphi).  First-order coefficients are compared directly (the O(r^2) terms
+    # of |B0 + r B1| are large on strongly shaped helical axes, so a finite-r comparison has no useful tolerance).
+    thB = th + (q.iota - q.iotaN) * q.varphi
+    r2_ = 1e-8
+    d1 = (q.B_mag(r2_, thB, q.phi) - q.B_mag(0.0, thB, q.phi)) / r2_
     n += 1
-    if q.helicity == 0 and np.max(np.abs(Bm - Bv)) > 50 * r * r * abs(q.B0) * (1 + q.etabar ** 2 + (0 if q.order == 'r1' else np.max(np.abs(q.B20)) / abs(q.B0) + abs(q.B2c) + abs(q.B2s))):
-        bad('magnitude-Bmag', '|Bfield| and B_mag differ by more than O(r^2): %.3g' % np.max(np.abs(Bm - Bv)))
+    if np.max(np.abs(d1 - q.sG * Bt)) > 1e-4 * abs(q.B0 * q.etabar):
+        bad('magnitude-Bmag', 'd|B|/dr at r = 0 differs between B_mag and the field vector: %.3g (scale %.3g)' % (np.max(np.abs(d1 - q.sG * Bt)), abs(q.B0 * q.etabar)))
+    d1b = (q.B_mag(r2_, thB, q.varphi, Boozer_toroidal=True) - q.B0) / r2_
+    n += 1
+    if np.max(np.abs(d1b - q.sG * Bt)) > 1e-4 * abs(q.B0 * q.etabar):
+        bad('magnitude-Bmag-boozer', 'd|B|/dr at r = 0 differs between B_mag(Boozer_toroidal=True) and the field vector: %.3g' % np.max(np.abs(d1b - q.sG * Bt)))
     # Cartesian = rotated cylindrical; Frobenius norms; L_grad_B
     C = q.grad_B_tensor_cartesian()
     c, s = np.cos(q.phi), np.sin(q.phi); z, o = np.zeros_like(c), np.ones_like(c)
